@@ -15,7 +15,7 @@ func C14_malformed() {
 	mustErr, mayEither := false, false
 	for i := 0; i < np; i++ {
 		k := vChoose("key", len(keys))
-		vl := vChoose("vlen", 3)
+		vl := vChoose("vlen", 5) // values of 0..4 arbitrary bytes (more digits than a window size can have)
 		val := vBytes("val", vl)
 		if vl == 0 {
 			val = nil
@@ -46,7 +46,7 @@ func C14_malformed() {
 				num = num*10 + uint64(c-'0')
 			}
 			inRange := vAnd(num >= 8, num <= 15)
-			leadingZero := vAnd(vl == 2, val[0] == '0')
+			leadingZero := vAnd(vl >= 2, val[0] == '0')
 			if vConcrete(vIte(vAnd(digits, vAnd(inRange, !leadingZero)), 1, 0)) == 1 {
 				// plainly valid value
 			} else if vConcrete(vIte(vAnd(digits, vAnd(inRange, leadingZero)), 1, 0)) == 1 {
